@@ -2,13 +2,15 @@
 //
 //	Pub/Sub decorators are transparent; delay stamps and metrics count exactly.
 //
-// Three workload classes run the real decorators (message transform, delay.Publisher, Prometheus
+// Four workload classes run the real decorators (message transform, delay.Publisher, Prometheus
 // metrics decorators and middleware) around scripted ends and judge every execution against a
 // reference model:
 //
 //	pubstack  publisher decorator stacks of depth 0..3 over {transform, delay, metrics (same builder, also twice)}
 //	substack  subscriber decorator stacks of depth 0..3 over {transform, metrics (same builder, also twice)}
 //	router    a Router with the metrics decorators/middleware and scripted handler outcomes
+//	subclose  subscriber stacks on the error paths: failing inner Close / Subscribe, messages held in the decorators,
+//	          repeated and concurrent Close, Subscribe during/after Close, compared with the bare subscriber (subclose.go)
 package c20
 
 import (
@@ -29,18 +31,28 @@ func init() {
 	vlib.Register(&vlib.Prop{
 		ID:    "C20",
 		Level: "exploration",
-		Cases: func(tier string) int { return vlib.TierN(tier, 500, 100000) },
-		Rule: "case idx%8 in 0..3: publisher stack (depth 0..3 drawn from transform / delay.Publisher / metrics decorator of one builder, the metrics decorator " +
+		Cases: func(tier string) int { return vlib.TierN(tier, 625, 125000) },
+		Rule: "case idx%10 in 0..3: publisher stack (depth 0..3 drawn from transform / delay.Publisher / metrics decorator of one builder, the metrics decorator " +
 			"possibly twice) around a scripted publisher; 3..8 Publish calls with fresh batches of 0..4 messages mixing pre-set delay metadata (delay.Message), " +
 			"context delays (For/Until: -1h, 0, +10y, small) and none, PublisherConfig {generator absent/present/failing} x AllowNoDelay, scripted inner errors; " +
-			"idx%8 in 4..5: subscriber stack (depth 0..3 of transform / metrics, also twice) around a scripted subscriber, 1..2 subscriptions, messages acked, nacked or " +
-			"held back (two-phase metric comparison), Subscribe/Close errors; idx%8 in 6..7: Router with metrics decorators (once / twice) and middleware, Recoverer absent / outside / inside, " +
-			"handler outcome sequences over {success, error, panic, publish failure} with broker-like redelivery. Every case compares the scripted ends' records and a private " +
-			"prometheus.Registry's Gather() with the reference model. Non-trivial = at least one decorator in the stack and at least one message passed or was refused; " +
+			"idx%10 in 4..5: subscriber stack (depth 0..3 of transform / metrics, also twice) around a scripted subscriber, 1..2 subscriptions, messages acked, nacked or " +
+			"held back (two-phase metric comparison), Subscribe/Close errors; idx%10 in 6..7: Router with metrics decorators (once / twice) and middleware, Recoverer absent / outside / inside, " +
+			"handler outcome sequences over {success, error, panic, publish failure} with broker-like redelivery; " +
+			"idx%10 in 8..9 (subclose, error paths of the subscriber decorators): the same kind of stack (depth 0 = the bare subscriber, the reference) around a scripted subscriber whose Close reports an error " +
+			"never / on the first call only / on every call (its subscriptions end in every Close call) and whose Subscribe fails for chosen topics; script: 1..3 Subscribe calls, 0..4 emissions per subscription of which the consumer " +
+			"reads a prefix (the rest is held inside the decorators, nobody reading; 70%: Close is called only once the process is quiescent, else while messages are in flight), optional ctx cancel of a subscription, 1..3 Close calls " +
+			"sequential or concurrent, optionally a Subscribe racing them and the consumer resuming to read during Close, optional Subscribe after Close, then the consumer drains every channel. Judged on what the inner subscriber " +
+			"did (holds trivially at depth 0): every Subscribe/Close reaches it once and returns its error (sequence for sequential, multiset for concurrent Close calls), every Close and Subscribe call returns (quiescence), " +
+			"every channel handed out ends once the inner subscriptions ended, every message taken from the inner subscriber is either received (once, in order, transformed once, settling reaches the inner message) or nacked, " +
+			"no message comes out by a receive started after a Close call had returned (logical stamps), subscriber metric = consumer's settlements (+ at most the messages the decorators gave back). Every case compares the scripted ends' records and a private " +
+			"prometheus.Registry's Gather() with the reference model. Non-trivial = at least one decorator in the stack and at least one message passed or was refused " +
+			"(subclose: at least one decorator and an inner Close/Subscribe error, or a message held in / given back by the decorators); " +
 			"distinct = distinct (class, stack, per-call shape and outcome) signatures.",
 		Assumptions: []string{
 			"a message is published once (fresh messages per Publish call, per the Message godoc)",
-			"received messages are consumed from the outermost channel before Close (the blocked-pump Close hang belongs to C07)",
+			"substack class: received messages are consumed from the outermost channel before Close; the subclose class drops this (messages stay unread in the decorators when Close is called)",
+			"subclose class: the inner subscriber honours the Subscriber godoc ('Close closes all subscriptions with their output channels') in every Close call, also in those that report an error; a Subscribe on a closed stack may be refused by the decorator itself ('subscriber closed') - only an error of the inner Subscribe has to come through",
+			"subclose class: a message that the decorators give back themselves (nack, never delivered) may or may not be counted by the subscriber metric (the statement counts received messages)",
 			"delay bracket checks compare wall-clock readings taken around the construction of the Delay (no wall-clock step inside that window)",
 			"generator failing together with AllowNoDelay is not decided by the statement: either refusing or forwarding unstamped is accepted",
 			"metrics middleware is applied once per router (the statement's 'applied twice' is exercised for the publisher/subscriber decorators, which carry the idempotency mark; C20_MIDDLEWARE_TWICE=1 adds a router variant with the middleware doubled, clause metrics-handler-middleware-twice)",
@@ -50,13 +62,15 @@ func init() {
 }
 
 func run(e *vlib.Env) vlib.Result {
-	switch e.Idx % 8 {
+	switch e.Idx % 10 {
 	case 0, 1, 2, 3:
 		return runPubStack(e)
 	case 4, 5:
 		return runSubStack(e)
-	default:
+	case 6, 7:
 		return runRouter(e)
+	default:
+		return runSubClose(e)
 	}
 }
 
